@@ -69,6 +69,7 @@ type E1Case struct {
 	HTTP           *C06HTTP     `json:"http,omitempty"`           // C06: the HTTP codec's "Connection: close" path
 	Stress         int          `json:"stress,omitempty"`         // C02: > 0 = rounds of a real-goroutine stress (no scheduler)
 	AnyCloseReturn bool         `json:"anyclosereturn,omitempty"` // C11: "after Close" begins when a user's Close call has returned, even if nothing was closed
+	LongWaitSec    int          `json:"longwait_s,omitempty"`     // C18 probe: the waiting writer is watched for this many seconds of real time
 	Swallow        bool         `json:"swallow,omitempty"`        // the pipeline's exception handler logs and does not forward (the tail handler never sees an exception)
 	WrapRead       bool         `json:"wrapread,omitempty"`       // the decoding handler wraps a transport read error with %w before raising it (as utils.Assert does)
 }
